@@ -94,6 +94,9 @@ static incstate_t *inctop = 0;
 /* prevent unbridled recursion */
 #define MAX_INCLUDE_DEPTH 32
 static int incnum;
+#ifdef NEOLITH_VERIF
+static long verif_inc_depth (void) { long n = 0; incstate_t *p; for (p = inctop; p; p = p->next) n++; return n; }
+#endif
 
 /* If more than this is needed, the code needs help :-) */
 #define MAX_FUNCTION_DEPTH 10
@@ -471,6 +474,9 @@ static void handle_include (const char *inc_name, int optional) {
 
   if (++incnum == MAX_INCLUDE_DEPTH)
     {
+#ifdef NEOLITH_VERIF
+      VERIF_CTRACE ("inc.refused", incnum, MAX_INCLUDE_DEPTH);
+#endif
       include_error ("Maximum include depth exceeded");
     }
   else if ((fd = inc_open (buf, name)) != -1) /* open header file */
@@ -484,6 +490,10 @@ static void handle_include (const char *inc_name, int optional) {
       is->next = inctop;
       is->outptr = outptr;
       inctop = is; /* push new include state */
+#ifdef NEOLITH_VERIF
+      VERIF_CTRACE ("inc.push", verif_inc_depth (), MAX_INCLUDE_DEPTH - 1);
+      VERIF_CTRACE ("inc.num", incnum, MAX_INCLUDE_DEPTH - 1);
+#endif
       current_line--;
       save_file_info (current_file_id, current_line - current_line_saved);
       current_line_base += current_line;
@@ -496,11 +506,21 @@ static void handle_include (const char *inc_name, int optional) {
     }
   else if (!optional)
     {
+#ifdef NEOLITH_VERIF
+      VERIF_CTRACE ("inc.fail", incnum, MAX_INCLUDE_DEPTH - 1);
+#endif
       sprintf (buf, "Cannot #include %s", name);
       include_error (buf);
     }
   else
+#ifdef NEOLITH_VERIF
+    {
+      VERIF_CTRACE ("inc.fail", incnum, MAX_INCLUDE_DEPTH - 1);
+#endif
     refill_buffer ();
+#ifdef NEOLITH_VERIF
+    }
+#endif
 }
 
 static int get_terminator (char *terminator) {
@@ -1220,10 +1240,16 @@ void push_function_context () {
 
   if (last_function_context == MAX_FUNCTION_DEPTH - 1)
     {
+#ifdef NEOLITH_VERIF
+      VERIF_CTRACE ("fnctx.full", last_function_context + 1, MAX_FUNCTION_DEPTH);
+#endif
       yyerror ("Function pointers nested too deep");
       return;
     }
   fc = &function_context_stack[++last_function_context];
+#ifdef NEOLITH_VERIF
+  VERIF_CTRACE ("fnctx.push", last_function_context + 1, MAX_FUNCTION_DEPTH);
+#endif
   fc->num_parameters = 0;
   fc->num_locals = 0;
   node = new_node_no_line ();
@@ -1238,6 +1264,9 @@ void push_function_context () {
 }
 
 void pop_function_context () {
+#ifdef NEOLITH_VERIF
+  VERIF_CTRACE ("fnctx.pop", last_function_context, MAX_FUNCTION_DEPTH);
+#endif
   current_function_context = current_function_context->parent;
   last_function_context--;
 }
@@ -1320,6 +1349,10 @@ int yylex () {
               outptr = p->outptr;
               inctop = p->next;
               incnum--;
+#ifdef NEOLITH_VERIF
+              VERIF_CTRACE ("inc.pop", verif_inc_depth (), MAX_INCLUDE_DEPTH - 1);
+              VERIF_CTRACE ("inc.num", incnum, MAX_INCLUDE_DEPTH - 1);
+#endif
               FREE ((char *) p);
               outptr[-1] = '\n';
               if (outptr == last_nl + 1)
@@ -1330,6 +1363,9 @@ int yylex () {
             {
               ifstate_t *p = iftop;
 
+#ifdef NEOLITH_VERIF
+              VERIF_CTRACE ("if.unwind", 0, 0);
+#endif
               yyerror (p->state == EXPECT_ENDIF ? "Missing #endif" : "Missing #else/#elif");
               while (iftop)
                 {
@@ -2451,6 +2487,10 @@ extern YYSTYPE yylval;
  */
 void end_new_file () {
 
+#ifdef NEOLITH_VERIF
+  VERIF_CTRACE ("lex.end", verif_inc_depth (), MAX_INCLUDE_DEPTH - 1);
+  VERIF_CTRACE ("lex.end.if", verif_if_depth (), verif_if_depth ());
+#endif
   while (inctop)
     {
       incstate_t *p;
@@ -2573,6 +2613,10 @@ void start_new_file (int fd, const char* pre_text) {
   pragmas = DEFAULT_PRAGMAS;
   nexpands = 0;
   incnum = 0;
+#ifdef NEOLITH_VERIF
+  VERIF_CTRACE ("lex.start", verif_inc_depth (), MAX_INCLUDE_DEPTH - 1);
+  VERIF_CTRACE ("lex.start.if", verif_if_depth (), verif_if_depth ());
+#endif
   current_line = 1;
   current_line_base = 0;
   current_line_saved = 0;
